@@ -246,3 +246,67 @@ def scope_nodes(repo, f):
     for g in scope_funcs(repo, f):
         for n in g.body_nodes():
             yield g, n
+
+
+def _truth_leaves(e):
+    """the sub-expressions of a condition whose own truthiness decides it"""
+    if isinstance(e, ast.BoolOp):
+        for v in e.values:
+            yield from _truth_leaves(v)
+    elif isinstance(e, ast.UnaryOp) and isinstance(e.op, ast.Not):
+        yield from _truth_leaves(e.operand)
+    else:
+        yield e
+
+
+def numeric_truthiness_sites(repo, in_scope=None):
+    """[(func, node, expr, kind)] - places where a value typed int / float (not bool) is used as a truth value.
+    The pinned tree has none: every Optional number (timestamps, lifespans, generations, ids) is tested with `is None`,
+    because 0 / 0.0 are legitimate values.  Returns also the number of truth contexts examined."""
+    out = []
+    examined = 0
+    for f in repo.all_funcs():
+        if in_scope is not None and not in_scope(f):
+            continue
+        for n in f.body_nodes():
+            tests = []
+            if isinstance(n, (ast.If, ast.While, ast.IfExp, ast.Assert)):
+                tests.extend(_truth_leaves(n.test))
+            elif isinstance(n, ast.comprehension):
+                for c in n.ifs:
+                    tests.extend(_truth_leaves(c))
+            elif isinstance(n, ast.BoolOp) and not isinstance(getattr(n, '_parent', None), (ast.If, ast.While, ast.IfExp, ast.Assert, ast.BoolOp, ast.UnaryOp)):
+                # `x or default` / `x and y` used as a value: every operand but the last is tested
+                for v in n.values[:-1]:
+                    tests.extend(_truth_leaves(v))
+            elif isinstance(n, ast.UnaryOp) and isinstance(n.op, ast.Not) and not isinstance(getattr(n, '_parent', None), (ast.If, ast.While, ast.IfExp, ast.Assert, ast.BoolOp, ast.UnaryOp)):
+                tests.extend(_truth_leaves(n.operand))
+            elif isinstance(n, ast.Call) and isinstance(n.func, ast.Name) and n.func.id == 'bool' and len(n.args) == 1:
+                tests.extend(_truth_leaves(n.args[0]))
+            for t in tests:
+                if not isinstance(t, (ast.Name, ast.Attribute, ast.Subscript, ast.Call, ast.NamedExpr)):
+                    continue
+                examined += 1
+                try:
+                    ts = repo.expr_types(f, t)
+                except Exception:
+                    ts = set()
+                kinds = {x[1] for x in ts if x and x[0] == 'prim'}
+                if kinds & {'int', 'float'}:
+                    out.append((f, n, t, sorted(kinds & {'int', 'float'})[0]))
+    return out, examined
+
+
+def check_zero_is_a_value(ctx, rule, what, in_scope, floor=3):
+    """No number of the given scope is tested by truthiness (a zero timestamp, lifespan, generation ... is a value)."""
+    sites, examined = numeric_truthiness_sites(ctx.repo, in_scope)
+    seen = set()
+    for f, n, t, k in sites:
+        key = 'zero-is-a-value:%s:%s' % (f.qual, norm(t)[:50])
+        if key in seen:
+            continue
+        seen.add(key)
+        ctx.violation(rule, key, f.loc(n), 'the %s `%s` is used as a truth value in %s: the value 0 is treated like an absent one (%s); everywhere else such numbers are tested with `is None`'
+                      % (k, norm(t)[:60], f.short, what))
+    ctx.check(True, rule, 'zero-is-a-value:examined', 'truth contexts in scope', '%d truth contexts examined, none tests a number' % examined)
+    ctx.floor(rule, examined, floor, 'truth contexts examined for numeric truthiness')
